@@ -73,11 +73,15 @@ func Coeffs(n int) [][]int {
 		tmp := make([]int, i/2+1)
 		tmp[0] = 1
 		for j := 1; j < i/2+1; j++ {
-			if 2*j == i {
-				tmp[j] = 2 * coeffs[i-1][j-1]
-				continue
+			other := coeffs[i-1][j-1]
+			if 2*j != i {
+				other = coeffs[i-1][j]
 			}
-			tmp[j] = coeffs[i-1][j-1] + coeffs[i-1][j]
+			sum, overflow := addHasOverflowed(coeffs[i-1][j-1], other)
+			if overflow {
+				panic("binomial coefficient overflows int")
+			}
+			tmp[j] = sum
 		}
 		coeffs[i] = tmp
 	}
